@@ -287,14 +287,51 @@ func c10BoundaryCall2(r *rand.Rand) string {
 	return f + "(" + c10BoundaryArgs[r.Intn(len(c10BoundaryArgs))] + ", " + c10BoundaryArgs[r.Intn(len(c10BoundaryArgs))] + ")"
 }
 
+var c10Blank = []string{" ", "\t", "  ", " \t ", "\r", "\v", "\f", "\u00a0", "\u2028", "\x00", "\r\r", " \r"}
+
 func c10MutateFactFile(r *rand.Rand, seed []byte) ([]byte, string) {
 	lines := strings.Split(string(seed), "\n")
 	how := ""
-	switch r.Intn(10) {
+	switch r.Intn(13) {
 	case 0:
 		i := r.Intn(len(lines) + 1)
 		lines = append(lines[:i], append([]string{""}, lines[i:]...)...)
 		how = "empty-line"
+	case 10:
+		// a line that is blank but not empty, inserted or in place of a header / column line
+		ws := c10Blank[r.Intn(len(c10Blank))]
+		if r.Intn(2) == 0 || len(lines) < 2 {
+			i := r.Intn(len(lines) + 1)
+			lines = append(lines[:i], append([]string{ws}, lines[i:]...)...)
+			how = "blank-line-inserted"
+		} else {
+			lines[r.Intn(len(lines))] = ws
+			how = "blank-line-replaces"
+		}
+	case 11:
+		// blanks, carriage returns or other separators around the content of one or all lines
+		ws := c10Blank[r.Intn(len(c10Blank))]
+		all := r.Intn(3) == 0
+		k := r.Intn(len(lines))
+		for i := range lines {
+			if !all && i != k {
+				continue
+			}
+			switch r.Intn(3) {
+			case 0:
+				lines[i] = ws + lines[i]
+			case 1:
+				lines[i] = lines[i] + ws
+			default:
+				lines[i] = strings.Replace(lines[i], " ", ws+" ", 1)
+			}
+		}
+		how = "blank-padding"
+	case 12:
+		// two independent mutations on one file
+		b, h1 := c10MutateFactFile(r, seed)
+		b, h2 := c10MutateFactFile(r, b)
+		return b, h1 + "+" + h2
 	case 1:
 		lines[0] = []string{"-1", "99999999999", "x", "", "65537", " 1", "1 1", "0x1"}[r.Intn(8)]
 		how = "bad-predicate-count"
